@@ -181,3 +181,17 @@ Theorem C02_code_overlap_join :
   ltac:(let t := type of C01_C02_code_overlap_join_tight in exact t).
 Proof. exact C01_C02_code_overlap_join_tight. Qed.
 Print Assumptions C02_code_overlap_join.
+
+(* ---- tie: WHICH function verifies a candidate, as read from utils/simfunctions.py on this run
+   (Gen/SimFunctionsGen.v): the py_stringmatching measures themselves (and the local set-intersection
+   count for OVERLAP) -- a locally re-implemented measure would appear as "local:<name>" *)
+From SSJ Require Import SimFunctionsGen.
+Theorem sim_functions_of_source_are_library_measures :
+  sim_function_table =
+  [("COSINE", "py_stringmatching.similarity_measure.cosine.Cosine.get_raw_score");
+   ("DICE", "py_stringmatching.similarity_measure.dice.Dice.get_raw_score");
+   ("EDIT_DISTANCE", "py_stringmatching.similarity_measure.levenshtein.Levenshtein.get_raw_score");
+   ("JACCARD", "py_stringmatching.similarity_measure.jaccard.Jaccard.get_raw_score");
+   ("OVERLAP", "local:overlap");
+   ("OVERLAP_COEFFICIENT", "py_stringmatching.similarity_measure.overlap_coefficient.OverlapCoefficient.get_raw_score")]%string.
+Proof. reflexivity. Qed.
